@@ -160,9 +160,173 @@ def r22c(ctx, run):
                   "guard", f.file, iff[0]["ln"], "the guard on CommentContents must keep offset+2 inside the comment")
 
 
+def literal_inputs(quote, maxlen=5):
+    """strings the token regex can hand to the sub-lexer: quote (plain | backslash any)* quote?  over a small alphabet that
+    contains 1- and 2-byte characters (one whose second byte is 0xBF, the last continuation byte)"""
+    other_quote = "'" if quote == '"' else '"'
+    plain = ["a", "\u00e9", "\u00ff", other_quote]
+    anyc = plain + [quote, "\\"]
+    out = []
+
+    def rec(cur, n):
+        if n >= 1:
+            out.append(cur)            # unterminated
+            out.append(cur + quote)    # terminated
+        if n >= maxlen:
+            return
+        for c in plain:
+            rec(cur + c, n + 1)
+        if n + 2 <= maxlen:
+            for c in anyc:
+                rec(cur + "\\" + c, n + 2)
+    rec(quote, 1)
+    return sorted(set(x for x in out if len(x) <= maxlen), key=lambda x: (len(x), x))
+
+
+def reference_tokens(s, quote):
+    """the literal token grammar: a quote token on every quote character outside an escape, an Escape token on a backslash (it covers
+    the next character), a contents token where a run of other characters starts; offsets are byte offsets of whole characters"""
+    mode, pos, out = "in", 0, []
+    qk = "DoubleQuote" if quote == '"' else "SingleQuote"
+    for c in s:
+        if mode in ("in", "start") and c == quote:
+            mode = "start"
+            out.append((qk, pos))
+        elif mode in ("in", "start") and c == "\\":
+            mode = "esc"
+            out.append(("Escape", pos))
+        elif mode == "start":
+            mode = "in"
+            out.append(("StringContents", pos))
+        elif mode == "esc":
+            mode = "start"
+        pos += len(c.encode("utf-8"))
+    return out
+
+
+def r22d(ctx, run):
+    """the two literal sub-lexers evaluated on every literal of up to 5 characters over {ascii, 2-byte, 2-byte ending in 0xBF, the other
+    quote, quote, backslash}, with a symbolic start offset: the emitted (kind, start) list must be the literal token grammar's"""
+    from symint import SymInterp, Lin, sym, to_lin
+    from absint import Term, Variant, Obj, Panic, CannotEstablish
+    L = "lexer/src/lib.rs"
+    off = sym("offset")
+
+    def resolver(path):
+        last = path.rsplit("::", 1)[-1]
+        c = [f for f in ctx.syn.fns_in(L) if f.body is not None and f.qual.rsplit("::", 1)[-1] == last and not f.in_test]
+        return c[0] if len(c) == 1 else None
+
+    class XI(SymInterp):
+        def bind(self, p, v, env):
+            if p.get("k") == "p_lit" and isinstance(v, int) and p["v"].startswith("b'"):
+                lit = p["v"][2:-1]
+                lit = {"\\'": "'", "\\\\": "\\", '\\"': '"', "\\n": "\n"}.get(lit, lit)
+                return len(lit) == 1 and v == ord(lit)
+            if p.get("k") == "p_range" and isinstance(v, int):
+                txt = p["v"].replace(" ", "")
+                try:
+                    if "..=" in txt:
+                        lo, hi = txt.split("..=")
+                        return int(lo, 0) <= v <= int(hi, 0)
+                    if ".." in txt:
+                        lo, hi = txt.split("..")
+                        return int(lo, 0) <= v < int(hi, 0)
+                except ValueError:
+                    pass
+            if p.get("k") == "p_lit" and isinstance(v, str) and p["v"].startswith("'"):
+                lit = p["v"][1:-1]
+                lit = {"\\'": "'", "\\\\": "\\", '\\"': '"', "\\n": "\n"}.get(lit, lit)
+                return v == lit
+            return super().bind(p, v, env)
+
+        def eval(self, e, env):
+            if e["k"] == "lit" and isinstance(e.get("v"), str) and e["v"].startswith("b'"):
+                lit = e["v"][2:-1]
+                lit = {"\\'": "'", "\\\\": "\\", '\\"': '"', "\\n": "\n"}.get(lit, lit)
+                if len(lit) == 1:
+                    return ord(lit)
+            if e["k"] == "lit" and e.get("t") == "char":
+                lit = e["v"][1:-1] if e["v"].startswith("'") else e["v"]
+                return {"\\'": "'", "\\\\": "\\", '\\"': '"', "\\n": "\n"}.get(lit, lit)
+            if e["k"] == "cast":
+                v = self.eval(e["e"], env)
+                if isinstance(v, (int, Lin)) and not isinstance(v, bool):
+                    return v
+                if isinstance(v, str) and len(v) == 1:
+                    return ord(v)
+            if e["k"] == "ref":
+                return self.eval(e["e"], env)
+            return super().eval(e, env)
+
+        def default_method(self, recv, m, args, e):
+            if isinstance(recv, str):
+                if m == "chars":
+                    return list(recv)
+                if m in ("bytes", "as_bytes"):
+                    return list(recv.encode("utf-8"))
+                if m == "char_indices":
+                    out, p_ = [], 0
+                    for c in recv:
+                        out.append((p_, c))
+                        p_ += len(c.encode("utf-8"))
+                    return out
+                if m == "len":
+                    return len(recv.encode("utf-8"))
+                if m == "len_utf8":
+                    return len(recv.encode("utf-8"))
+                if m == "contains":
+                    return args[0] in recv
+                if m in ("starts_with", "ends_with"):
+                    return recv.startswith(args[0]) if m == "starts_with" else recv.endswith(args[0])
+                if m == "is_empty":
+                    return recv == ""
+                if m == "is_char_boundary" and isinstance(args[0], int):
+                    b = recv.encode("utf-8")
+                    return args[0] == len(b) or (0 <= args[0] < len(b) and (b[args[0]] & 0xC0) != 0x80)
+            if isinstance(recv, tuple) and recv and recv[0] == "range" and m == "contains":
+                return recv[1] <= args[0] < recv[2]
+            if isinstance(recv, list) and m == "contains" and recv and all(isinstance(x, int) for x in recv):
+                return args[0] in recv
+            return super().default_method(recv, m, args, e)
+    n_ok = 0
+    for name, quote in (("lex_string", '"'), ("lex_char", "'")):
+        f = ctx.syn.fn(name, L)
+        names = f.param_names()
+        bad = None
+        inputs = literal_inputs(quote)
+        for sx in inputs:
+            got = []
+
+            def emit(kind, pos, got=got):
+                got.append((kind.last if isinstance(kind, Variant) else repr(kind), pos))
+                return None
+            it = XI(resolver=resolver, funcs={"TextSize::from": lambda i, a: a[0], "TextSize::of": lambda i, a: len(a[0].encode("utf-8")) if isinstance(a[0], str) else a[0],
+                                              "TextSize::new": lambda i, a: a[0]})
+            try:
+                it.run_fn(f, {names[0]: sx, names[1]: off, names[2]: ("pyfunc", emit)})
+            except (Panic, CannotEstablish) as c:
+                bad = (sx, "cannot establish: %s" % getattr(c, "what", c), None)
+                break
+            want = [(k, to_lin(off).add(to_lin(p_))) for k, p_ in reference_tokens(sx, quote)]
+            gotn = [(k, to_lin(p_)) for k, p_ in got]
+            if gotn != want:
+                bad = (sx, [(k, repr(p_)) for k, p_ in gotn], [(k, repr(p_)) for k, p_ in want])
+                break
+            n_ok += 1
+        if bad is None:
+            run.ok(f.site(), "%s: token kinds and starts equal the literal token grammar on %d literals (<= 5 characters, symbolic offset)" % (name, len(inputs)))
+        else:
+            sx, g, w = bad
+            run.finding(name, "literal-tokens", f.file, f.ln,
+                        "%s on the literal %r emits %s; the literal token grammar gives %s (a quote token only on a quote character, Escape = backslash + next character, "
+                        "starts on character boundaries)" % (name, sx, g, w))
+
+
 def rules(ctx):
     return [
         Rule("R22.a", "the transmute LexerTokenKind -> TokenKind is an identity on names/discriminants; internal kinds handled first; u8 raw conversions fit", 9, r22a),
         Rule("R22.b", "kinds/starts pushed pairwise + one sentinel; Tokens::new is the only constructor; range(i) = starts[i]..starts[i+1]", 7, r22b),
+        Rule("R22.d", "literal sub-lexers evaluated on all literals up to 5 characters (1- and 2-byte characters, escapes, unterminated) with a symbolic offset = the literal token grammar", 2, r22d),
         Rule("R22.c", "sub-lexers emit only the running position, advanced by len_utf8 once per character", 15, r22c),
     ]
